@@ -6,7 +6,7 @@
    TokenProofs.range_expr (the expression a Go Range{begin,end} stands for),
    TokenProofs.delim_wf (a regexp delimiter reports ordered, in-range occurrences for every text —
    what Go's FindAllStringIndex guarantees; trivially true for AWK and literal delimiters). *)
-From Fzf Require Import Prelude FieldSpec TokenModel TokenProofs RangeProofs.
+From Fzf Require Import Prelude FieldSpec TokenModel TokenProofs RangeProofs FieldOutProofs.
 Open Scope Z_scope.
 
 (* Splitting partitions the line, for all three delimiter kinds and ALL lines: the tokens are exactly the
@@ -108,6 +108,88 @@ Print Assumptions parse_range_documented.
 Theorem atoi_itoa : forall z, INT_MIN <= z <= INT_MAX -> atoi (itoa z) = Some z.
 Proof. exact atoi_itoa_proof. Qed.
 Print Assumptions atoi_itoa.
+
+(* ---- what is printed / searched / substituted for the selected fields ----
+   FieldSpec.output_text d s = s without ONE trailing delimiter occurrence (strip_delim), then without
+   trailing white space; FieldOutProofs.dspec_of maps the model's delimiter to the spec's description. *)
+
+(* the executable stripping of a literal delimiter means exactly: remove one trailing sep, or nothing *)
+Theorem strip_literal_one : forall sep p, strip_literal sep (p ++ sep) = p.
+Proof. exact strip_literal_one_proof. Qed.
+Print Assumptions strip_literal_one.
+
+Theorem strip_literal_other : forall sep s, (forall p, s <> p ++ sep) -> strip_literal sep s = s.
+Proof. exact strip_literal_other_proof. Qed.
+Print Assumptions strip_literal_other.
+
+(* StripLastDelimiter, for every text and delimiter, is that stripping: never more than one delimiter, never
+   a character of the field itself *)
+Theorem strip_last_delimiter_documented : forall s d,
+  delim_wf d -> strip_last_delimiter s d = Ok (output_text (dspec_of d) s).
+Proof. exact strip_last_delimiter_documented_proof. Qed.
+Print Assumptions strip_last_delimiter_documented.
+
+(* --accept-nth EXPR,...: exactly the documented fields of the line, concatenated, last delimiter stripped *)
+Theorem accept_nth_documented : forall line nth d,
+  delim_wf d ->
+  accept_nth line nth d =
+    Ok (output_text (dspec_of d) (fields_text (map range_expr nth) (spec_fields d line))).
+Proof. exact accept_nth_documented_proof. Qed.
+Print Assumptions accept_nth_documented.
+
+(* --nth: the searched texts ARE the documented selections, one per expression (with a --delimiter the last
+   one without its trailing delimiter) -- equality, not only inclusion ... *)
+Theorem nth_searched_texts : forall line nth d toks,
+  delim_wf d -> transform_input line nth d = Ok toks ->
+  map t_text toks = search_texts (dspec_of d) (map range_expr nth) (spec_fields d line).
+Proof. exact nth_searched_texts_proof. Qed.
+Print Assumptions nth_searched_texts.
+
+(* ... so no match is reported iff the matcher rejects every one of them (nothing selected is left unsearched) *)
+Theorem nth_complete : forall (pfun : match_fn) line nth d,
+  delim_wf d -> nth <> [] ->
+  (nth_match pfun line nth d = Ok None <->
+   Forall (fun t => pfun t = None) (search_texts (dspec_of d) (map range_expr nth) (spec_fields d line))).
+Proof. exact nth_complete_proof. Qed.
+Print Assumptions nth_complete.
+
+(* templates of --with-nth / --accept-nth: literal text, {n}, and each {EXPR,...} replaced by its documented
+   fields with the trailing delimiter stripped; --accept-nth strips the last delimiter of the whole once more *)
+Theorem with_nth_template_documented : forall parts line d index,
+  delim_wf d ->
+  with_nth_template parts line d index =
+    Ok (render_template (dspec_of d) (spec_fields d line) index (map part_expr parts)).
+Proof. exact with_nth_template_documented_proof. Qed.
+Print Assumptions with_nth_template_documented.
+
+Theorem accept_nth_template_documented : forall parts line d index,
+  delim_wf d ->
+  accept_nth_template parts line d index =
+    Ok (output_text (dspec_of d)
+          (render_template (dspec_of d) (spec_fields d line) index (map part_expr parts))).
+Proof. exact accept_nth_template_documented_proof. Qed.
+Print Assumptions accept_nth_template_documented.
+
+(* {EXPR,...} in a command template (r flag: before quoting) *)
+Theorem placeholder_documented : forall line ranges d preserve,
+  delim_wf d ->
+  placeholder_fields line ranges d preserve =
+    Ok (placeholder_text (dspec_of d) preserve (map range_expr ranges) (spec_fields d line)).
+Proof. exact placeholder_documented_proof. Qed.
+Print Assumptions placeholder_documented.
+
+(* non-vacuity: "docs/src/index.md" with -d /src/: field 1 is "docs/src/", printed/searched as "docs" (the 's'
+   and 'c' of the field stay); "a,,b" with -d , and 1..2: "a,," loses ONE comma; a template; a placeholder *)
+Example c10_output_nonvacuous :
+  let line := [100; 111; 99; 115; 47; 115; 114; 99; 47; 105; 110; 100; 101; 120; 46; 109; 100] in
+  let d := DStr [47; 115; 114; 99; 47] in
+  accept_nth line [(1, 1)] d = Ok [100; 111; 99; 115] /\
+  transform_input line [(1, 1)] d = Ok [mkTok [100; 111; 99; 115] 0] /\
+  accept_nth [97; 44; 44; 98] [(1, 2)] (DStr [44]) = Ok [97; 44] /\
+  with_nth_template [PStr [60]; PNth [(1, 1)]; PStr [62]; PIndex] line d 7 = Ok [60; 100; 111; 99; 115; 62; 55] /\
+  placeholder_fields [32; 97; 44; 44; 98] [(1, 2)] (DStr [44]) false = Ok [97; 44] /\
+  placeholder_fields [32; 97; 44; 44; 98] [(1, 2)] (DStr [44]) true = Ok [32; 97; 44].
+Proof. repeat split; vm_compute; reflexivity. Qed.
 
 (* parse_range is a total function (option, no res): rejection is None; a zero bound is refused *)
 Example parse_range_rejects_zero :
